@@ -142,7 +142,7 @@ func sitesDepth(fn *ssa.Function, depth int) []Site {
 				for _, a := range CallArgs(x) {
 					s.Args = append(s.Args, t.T(a))
 				}
-				if g := x.Common().StaticCallee(); g != nil && s.Kind == "call" && depth < 2 && inlineable(g) {
+				if g := x.Common().StaticCallee(); g != nil && s.Kind == "call" && depth < 2 && inlineableSites(g) {
 					out = append(out, inlineSites(fn, x, s, g, depth)...)
 					continue
 				}
@@ -397,8 +397,8 @@ func (c *Ctx) CheckCallers(rule string, targets []string, specs []CallerSpec) {
 		isT[t] = true
 	}
 	counts := make([]int, len(specs))
-	for _, fn := range c.P.Funcs {
-		if inTesting(fn) || len(CallsIn(fn, func(n string) bool { return isT[n] })) == 0 {
+	for _, fn := range c.ReviewedFuncs() {
+		if inTesting(fn) {
 			continue
 		}
 		for _, s := range Sites(fn) {
